@@ -11,6 +11,15 @@ COMMON_NOTE = ("Trusted: Coq 8.16.1 kernel; extraction (ExtrOcamlBasic only) + O
 
 # id -> (claimed?, design_ref, level text, level note, technique)
 CLAIMS = {
+    "C01": {"design_ref": "DESIGN.md 7/C01",
+            "text": "Coq theorem C01_sa_sound: for both superadditive computers, all n, all knowledge sets containing the minimal information, all superadditive hidden games and ANY table holding that knowledge (arbitrary stale unknown rows, hence any history): value in [lower, upper], lower <= upper, known rows untouched. Tied to /repo by bit-exact (exact stream) / 1e-9 (float stream) correspondence of bounds.py with the extracted model on generated (game, K, stale, history) cases, plus a soundness oracle on the implementation's own output.",
+            "technique": "Coq proof (induction on coalition size over fixpoint equations of a size-sorted in-place fold) + model/implementation correspondence"},
+    "C03": {"design_ref": "DESIGN.md 7/C03",
+            "text": "Coq theorems: the cached and the reference computer leave Leibniz-equal rows for every table whose known rows have lower == upper (all n); spec of the memoised relation matrix and selection lemmas; memo invariant over any interleaving of player counts. Correspondence: impl-cached vs impl-ref vs model (n = 2..8), interleaved / repeated use with hashed memo arrays, relation matrix vs Structure.st_matrix.",
+            "technique": "Coq proof (uniqueness of the fixpoint equations) + three-way differential check"},
+    "C08": {"design_ref": "DESIGN.md 7/C08",
+            "text": "Coq theorems for the superadditive computers: the result is a function of the known rows only (stale unknown rows irrelevant, any game class), recomputation idempotent, reveal+un-reveal undone exactly, histories ending in the same knowledge confluent. For the SAM approximations the same statements are checked by correspondence + implementation-side oracles (route independence, idempotence, undo, stale rows) for every registered computer.",
+            "technique": "Coq proof (fixpoint uniqueness) + history correspondence + route-independence oracle"},
 }
 
 PENDING_REASON = "check under construction in this session (DESIGN.md section 9 staging); not claimed until its theorems and correspondence are committed"
